@@ -5,7 +5,8 @@
    args : written arguments separated by "|"; an argument is "-" (empty template), "S<name>" (%{name})
           or pieces separated by ","; a piece is L<text> | V<name> | E<name>
    known classes: "-" or a subset of the letters q (KF-C02-1, word-initial quote in a spread value),
-          h (KF-C02-2, # in a spread value), e (KF-C02-3, \${name} with a non-literal name) *)
+          e (KF-C02-3, \${name} with a non-literal name).  (KF-C02-2, # in a spread value, is repaired and
+          belongs to the theorems' domain.) *)
 let env_of_field s =
   if s = "-" then env_of_list [] else
   env_of_list (List.map (fun p ->
@@ -29,9 +30,8 @@ let wf_literal a = match a with
 let classes e args =
   let value n = match e n with Some v -> v | None -> [] in
   let q = List.exists (function WSpread n -> known_spread_quote (value n) | _ -> false) args in
-  let h = List.exists (function WSpread n -> known_spread_hash (value n) | _ -> false) args in
   let x = List.exists (function WT t -> known_esc_tmpl t | _ -> false) args in
-  let s = (if q then "q" else "") ^ (if h then "h" else "") ^ (if x then "e" else "") in
+  let s = (if q then "q" else "") ^ (if x then "e" else "") in
   (* the extracted classifier of the theorem must agree with the per-class letters *)
   let k = existsb (known_arg e) args in
   if k <> (s <> "") then "INCONSISTENT" else if s = "" then "-" else s
